@@ -366,8 +366,8 @@ theorem layStmts_idem {α : Type} (f : α → α) (hf : ∀ x, f (f x) = f x) (m
 theorem rulesEmpty_canon (lv : Nat) (inner : Bool) (rs : SRules) : rulesEmpty (canonRules lv inner rs) = rulesEmpty rs := by
   cases rs <;> simp [canonRules, rulesEmpty]
 
-theorem canon_idem_aux (s : SSheet) : canon (canon s) = canon s := by
-  simp only [canon, layStmts_isEmpty, rulesEmpty_canon, layStmts_idem canonImp canonImp_idem,
+theorem canonV_idem (s : SSheet) : canonV (canonV s) = canonV s := by
+  simp only [canonV, layStmts_isEmpty, rulesEmpty_canon, layStmts_idem canonImp canonImp_idem,
     layStmts_idem canonNs canonNs_idem, canonRules_idem]
   cases s.charset <;> simp
 
